@@ -43,7 +43,7 @@ var (
 	profC13   = mkProfile("C13", 40, 110, map[string]int{"st.new_alloc": 2, "st.update_alloc": 3, "st.kill": 3, "i.killreplace": 4, "st.update_blobber": 3, "i.expire": 2, "st.read": 0, "i.reads": 0, "st.stake": 2, "st.unstake": 2})
 	profC14   = mkProfile("C14", 40, 110, map[string]int{"st.finalize": 3, "st.cancel": 3, "i.expire": 4, "i.postclose": 4, "st.wp_lock": 2, "i.write": 2, "i.challenge": 2, "st.read": 0, "i.reads": 0, "st.kill": 2})
 	profC15   = mkProfile("C15", 40, 110, map[string]int{"st.read": 6, "i.reads": 6, "i.reads_ts": 10, "st.rp_lock": 3, "st.rp_unlock": 2, "st.commit": 0, "i.write": 0, "i.challenge": 0, "i.late": 0, "st.gen_chal": 0, "st.chal_resp": 0, "st.free_alloc": 0, "i.free": 0, "i.killreplace": 0})
-	profC24   = mkProfile("C24", 30, 90, map[string]int{"st.free_alloc": 8, "i.free": 8, "st.add_assigner": 4, "st.commit": 0, "i.write": 0, "i.challenge": 0, "i.late": 0, "st.gen_chal": 0, "st.chal_resp": 0, "st.read": 0, "i.reads": 0, "i.killreplace": 0})
+	profC24   = mkProfile("C24", 30, 90, map[string]int{"i.rotate": 8, "st.free_alloc": 8, "i.free": 8, "st.add_assigner": 4, "st.commit": 0, "i.write": 0, "i.challenge": 0, "i.late": 0, "st.gen_chal": 0, "st.chal_resp": 0, "st.read": 0, "i.reads": 0, "i.killreplace": 0})
 )
 
 func ri(r *sim.RNG, n int) int64 { return int64(r.Intn(n)) }
@@ -109,6 +109,8 @@ func genStep(r *sim.RNG, op string) sim.Step {
 	case "st.add_assigner":
 		st.A = r.Pick([]int{9, 1})
 		st.I = []int64{ri(r, 4), int64(r.Pick([]int{2, 4, 2, 1, 1})), int64(r.Pick([]int{3, 3, 2, 1, 2}))}
+		// keyKind from a child stream (Child does not advance r): all other arguments of every plan stay as they were
+		st.I = append(st.I, int64(r.Child("assigner-key").Pick([]int{8, 2, 4, 2})))
 	case "st.free_alloc":
 		st.A = r.Intn(8)
 		st.I = []int64{ri(r, 4), int64(r.Pick([]int{4, 3, 2, 2, 1})), int64(r.Pick([]int{24, 2, 3, 2, 2, 2, 2, 1, 1, 2, 2, 0})), ri(r, 8), ri(r, 8)}
@@ -267,6 +269,43 @@ func expand(r *sim.RNG, op string, mccr int) []sim.Step {
 		a := ri(r, 4)
 		out := []sim.Step{withI(withI(genStep(r, "st.free_alloc"), 0, a), 2, 0)}
 		out = append(out, withI(withI(genStep(r, "st.free_alloc"), 0, a), 2, 2))
+		return out
+	case "i.rotate":
+		// grants under key K1, the owner re-registers the name under K2 (limits same or changed), replays of the K1 markers, a marker
+		// still signed with K1, more grants (towards / across the total limit), rotation back to K1, replays again (their signatures
+		// verify again), a reused nonce, a grant over what is left of the total limit
+		a := ri(r, 4)
+		fa := func(tokens, fault int64) sim.Step {
+			return sim.Step{Op: "st.free_alloc", A: r.Intn(8), I: []int64{a, tokens, fault, ri(r, 8), ri(r, 8)}}
+		}
+		reg := func(keyKind int64) sim.Step {
+			return sim.Step{Op: "st.add_assigner", A: 0, I: []int64{a, int64(r.Pick([]int{3, 3, 1, 0, 1})), int64(r.Pick([]int{4, 3, 2, 0, 2})), keyKind}}
+		}
+		var out []sim.Step
+		if r.Intn(2) == 0 {
+			out = append(out, reg(3))
+		}
+		for i := 0; i < 1+r.Intn(2); i++ {
+			out = append(out, fa(int64(r.Pick([]int{2, 3, 2, 1, 0})), 0))
+		}
+		out = append(out, reg(2), fa(0, 2))
+		if r.Intn(2) == 0 {
+			out = append(out, fa(1, 11))
+		}
+		for i := 0; i < 1+r.Intn(3); i++ {
+			out = append(out, fa(int64(r.Pick([]int{1, 3, 3, 0, 1})), 0))
+		}
+		if r.Intn(2) == 0 {
+			out = append(out, fa(0, 4))
+		}
+		if r.Intn(3) == 0 {
+			out = append(out, genStep(r, "block"))
+		}
+		out = append(out, reg(2), fa(0, 2), fa(0, 2))
+		if r.Intn(2) == 0 {
+			out = append(out, fa(1, 9))
+		}
+		out = append(out, fa(int64(r.Pick([]int{1, 3, 3, 0, 1})), 0), fa(0, 4))
 		return out
 	case "i.postclose": // operations on an allocation that may already be closed
 		a := ri(r, 8)
